@@ -304,18 +304,18 @@ int main(int argc, char **argv) {
         else vf_sample("3 states x inputs -128..255 x elapsed {0,t-1,t,t+1,10t,31 s}: e.g. (Command, input 2, 0 s) must go to Emit; (Command, input 6, 0 s) must stay");
     } else {
         /* two clock origins: the time-abstracted key is only sound if behaviour is translation invariant */
-        e1_stats st[3];
-        static const uint64_t ORG[3] = {1000000ull, 3000500ull, 4294965000ull /* the millisecond clock passes 2^32 after 2.3 s */};
-        for (int o = 0; o < 3; o++) {
+        e1_stats st[4];
+        static const uint64_t ORG[4] = {1000000ull, 3000500ull, 4294965000ull /* the millisecond clock passes 2^32 after 2.3 s */, 0ull /* the clock has just started: time-stamp 0 is a legal value, not "unset" */};
+        for (int o = 0; o < 4; o++) {
             extern uint64_t vf_clock_origin; vf_clock_origin = ORG[o];
             e1_run(&ccfg, &st[o]);
         }
-        for (int o = 1; o < 3; o++)
+        for (int o = 1; o < 4; o++)
             if (st[0].fixpoint && st[o].fixpoint && (st[0].states != st[o].states || st[0].transitions != st[o].transitions || st[0].out_hash != st[o].out_hash))
                 vf_violation("time-translation-variance", "the exploration differs between clock origins %llu ms and %llu ms (%llu/%llu states): behaviour depends on absolute time", (unsigned long long)ORG[0], (unsigned long long)ORG[o], (unsigned long long)st[0].states, (unsigned long long)st[o].states);
-        R.states = st[0].states + st[1].states + st[2].states; R.transitions = st[0].transitions + st[1].transitions + st[2].transitions; R.evaluations = R.transitions;
-        R.max_depth = st[0].max_depth; R.fixpoint = st[0].fixpoint && st[1].fixpoint && st[2].fixpoint; R.exhaustive = R.fixpoint; R.cap_hit = st[0].cap;
-        vf_extra("origins", "explored from clock origins 1000000 ms, 3000500 ms and 4294965000 ms (2^32 ms passed inside every history): %llu states each, identical observation streams", (unsigned long long)st[0].states);
+        R.states = st[0].states + st[1].states + st[2].states + st[3].states; R.transitions = st[0].transitions + st[1].transitions + st[2].transitions + st[3].transitions; R.evaluations = R.transitions;
+        R.max_depth = st[0].max_depth; R.fixpoint = st[0].fixpoint && st[1].fixpoint && st[2].fixpoint && st[3].fixpoint; R.exhaustive = R.fixpoint; R.cap_hit = st[0].cap;
+        vf_extra("origins", "explored from clock origins 1000000 ms, 3000500 ms, 4294965000 ms (2^32 ms passed inside every history) and 0 ms: %llu states each, identical observation streams", (unsigned long long)st[0].states);
     }
     R.wall_s = vf_now_s() - t0;
     vf_write_results();
